@@ -1,5 +1,60 @@
+(* C10 -- Context association invariants hold after any sequence of context changes.
+   Property theorems only (model: Mdib/Model.v + Mdib/Context.v). *)
 From Coq Require Import List ZArith.
-From SDC Require Import Mdib.Model Mdib.Context.
-Theorem C10_placeholder : forall m dh h p, snd (set_location m dh h p) = snd (set_location m dh h p).
-Proof. reflexivity. Qed.
-Print Assumptions C10_placeholder.
+From SDC Require Import Mdib.Model Mdib.Proofs Mdib.Context Mdib.Context_Proofs.
+Import ListNotations.
+Open Scope Z_scope.
+
+(* a location change (ProviderMdibMethods.set_location), from ANY MDIB state in which the new handle is unused:
+   committed with MdibVersion + 1 and, pointwise, the context table is: the new associated state bound to this
+   commit; every state of that descriptor that needed it disassociated with StateVersion + 1 and (if it had none)
+   the unbinding version of this commit; everything else untouched *)
+Theorem C10_set_location_pointwise : forall m dh h p d,
+  descrs m dh = Some d -> d_kind d = K_CTX -> cstates m h = None ->
+  NoDup (cdom m) -> (forall k c, cstates m k = Some c -> In k (cdom m)) ->
+  let m' := fst (set_location m dh h p) in
+  snd (set_location m dh h p) = 0 /\ ver m' = ver m + 1 /\
+  forall k, cstates m' k =
+    if Z.eqb k h then Some (mkCState dh (d_ver d) 0 A_ASSOC (Some (ver m + 1)) None p)
+    else match cstates m k with
+         | Some c => if needs_dis dh c then Some (dis_of (ver m + 1) c) else Some c
+         | None => None
+         end.
+Proof. exact set_location_pointwise. Qed.
+Print Assumptions C10_set_location_pointwise.
+
+(* hence: afterwards the new state is the ONLY associated state of the descriptor (whatever was there before -
+   even several associated ones), it is bound to the version of this commit; every previously associated state
+   is disassociated with the unbinding version of this commit; other descriptors' states are untouched *)
+Theorem C10_set_location_invariants : forall m dh h p d,
+  descrs m dh = Some d -> d_kind d = K_CTX -> cstates m h = None ->
+  NoDup (cdom m) -> (forall k c, cstates m k = Some c -> In k (cdom m)) ->
+  let m' := fst (set_location m dh h p) in
+  let v := ver m + 1 in
+  (forall k c, cstates m' k = Some c -> c_dh c = dh -> c_assoc c = A_ASSOC -> k = h) /\
+  (exists c, cstates m' h = Some c /\ c_assoc c = A_ASSOC /\ c_bind c = Some v /\ c_dh c = dh) /\
+  (forall k c, cstates m k = Some c -> c_dh c = dh -> c_assoc c = A_ASSOC ->
+      exists c', cstates m' k = Some c' /\ c_assoc c' = A_DIS /\
+                 (c_unbind c = None -> c_unbind c' = Some v) /\ c_ver c' = c_ver c + 1) /\
+  (forall k c, cstates m k = Some c -> c_dh c <> dh -> cstates m' k = Some c).
+Proof. exact set_location_invariants. Qed.
+Print Assumptions C10_set_location_invariants.
+
+(* SetContextState (any proposal list, valid or rejected): a failed operation changes nothing; a finished one
+   is one commit *)
+Theorem C10_set_context_state_atomic : forall m fresh ps,
+  let r := set_context_state m fresh ps in
+  (snd r = 1 -> fst r = m) /\ (snd r = 0 -> ver (fst r) = ver m + 1 \/ fst r = m) /\ (snd r = 0 \/ snd r = 1).
+Proof. exact set_context_state_atomic. Qed.
+Print Assumptions C10_set_context_state_atomic.
+
+Example C10_nonvacuous :
+  let m := mkMdib (fun h => if Z.eqb h 5 then Some (mkDescr None K_CTX 2 1) else None) (fun _ => None)
+                  (fun h => if Z.eqb h 11 then Some (mkCState 5 2 0 A_ASSOC (Some 3) None 7) else None)
+                  9 (fun _ => None) (fun _ => None) (fun _ => None) [5] [11] in
+  let m1 := fst (set_location m 5 12 8) in
+  let m2 := fst (set_context_state m1 [13] [mkProp 5 (Some 11) A_ASSOC 9]) in
+  cstates m1 11 = Some (mkCState 5 2 1 A_DIS (Some 3) (Some 10) 7) /\ assoc_states m1 5 = [12] /\
+  assoc_states m2 5 = [11] /\ ver m2 = 11 /\
+  cstates m2 12 = Some (mkCState 5 2 1 A_DIS (Some 10) (Some 11) 8).
+Proof. vm_compute. repeat split. Qed.
